@@ -83,7 +83,31 @@ func c02() {
 			}
 			p := &seccomp.Policy{DefaultAction: def, Syscalls: []seccomp.SyscallGroup{{Action: action,
 				NamesWithCondtions: []seccomp.NameWithConditions{{Name: name, Conditions: seccomp.ArgumentConditions{cond}}}}}}
+			// every fifth entry sits in a context: behind K single-condition entries for other syscalls (K around the sizes
+			// at which tables grow) and an earlier single-condition entry for the same syscall on another argument
+			var ctxRef *vlib.Ref
+			if ji%5 == 2 {
+				k := []int{1, 7, 63, 64, 65, 127, 128, 129, 200}[(ji/5)%9]
+				var ents []seccomp.NameWithConditions
+				first := r.Intn(k)
+				for x := 0; x < k; x++ {
+					other := j.t.Names[(ji*7+1+x)%len(j.t.Names)]
+					if other == name {
+						continue
+					}
+					if x == first {
+						ents = append(ents, seccomp.NameWithConditions{Name: name, Conditions: seccomp.ArgumentConditions{{Argument: (j.arg + 1) % 6, Operation: "Equal", Value: 0x5a5a5a5a00000000 | uint64(x)}}})
+					}
+					ents = append(ents, seccomp.NameWithConditions{Name: other, Conditions: seccomp.ArgumentConditions{{Argument: uint32(x % 6), Operation: vlib.AllOps[x%8], Value: uint64(x)*0x100000001 + 3}}})
+				}
+				ents = append(ents, p.Syscalls[0].NamesWithCondtions[0])
+				p.Syscalls[0].NamesWithCondtions = ents
+				run.Count("entries_judged_inside_a_large_group", 1)
+			}
 			spec := vlib.SpecOf(p, j.t.Name)
+			if ji%5 == 2 {
+				ctxRef = vlib.NewRef(spec.Policy(), j.t)
+			}
 			c := vlib.Compile(p, j.t)
 			run.Count("policies", 1)
 			if !c.OK() {
@@ -138,6 +162,10 @@ func c02() {
 					w := e.Words(big)
 					tr, err := c.RunBoth(&w, nil, false)
 					n++
+					want := want
+					if ctxRef != nil {
+						want, _ = ctxRef.Decide(e)
+					}
 					if err != nil || tr.Ret != want {
 						got := fmt.Sprintf("%#x", tr.Ret)
 						if err != nil {
